@@ -284,6 +284,9 @@ pub struct World {
     /// what the last step actually did, for the algorithmic life-cycle model (`Redb.Life2`):
     /// `key=value` tokens appended to the `hist step` line after the result
     pub(crate) step_extra: String,
+    /// a write transaction was dropped by a caught panic: its pages stay allocated without an
+    /// owner until the next open / integrity check rebuilds the allocator state
+    pub(crate) leaky: bool,
 }
 
 fn dur_name(d: Durability) -> &'static str {
@@ -298,7 +301,7 @@ impl World {
     pub(crate) fn new(cfg: Cfg, focus: &str) -> Self {
         let backend = MemBackend::fresh();
         let db = open_db(backend.clone(), &cfg).expect("create database");
-        World { cfg, backend, db: Some(db), committed: Model::default(), readers: vec![], sps: vec![], psp: BTreeMap::new(), step_no: 0, focus: focus.to_string(), window: vec![(Model::default(), BTreeMap::new())], durable_fp: None, step_extra: String::new() }
+        World { cfg, backend, db: Some(db), committed: Model::default(), readers: vec![], sps: vec![], psp: BTreeMap::new(), step_no: 0, focus: focus.to_string(), window: vec![(Model::default(), BTreeMap::new())], durable_fp: None, step_extra: String::new(), leaky: false }
     }
 
     pub(crate) fn db(&self) -> &Database {
@@ -480,6 +483,23 @@ impl World {
                         break;
                     }
                 }
+            }
+        }
+        // ... and never offers a region that does not exist (an allocation would be directed
+        // beyond the last region instead of growing the file)
+        {
+            let regions = snap.mem.region_allocators.len();
+            let mut r = regions;
+            'outer: while let Some(_) = tracker_bit(&snap.mem.region_tracker, 0, r) {
+                let mut o = 0;
+                while let Some(full) = tracker_bit(&snap.mem.region_tracker, o, r) {
+                    if !full {
+                        out.oracle_fail(format!("tracker-offers-missing-region|after {after}: the region tracker reports free space of order {o} in region {r}, but the database has {regions} region(s)"));
+                        break 'outer;
+                    }
+                    o += 1;
+                }
+                r += 1;
             }
         }
         out.count("tracker_checks");
@@ -832,6 +852,15 @@ impl World {
                 drop(txn);
                 false
             }
+            End::PanicDrop => {
+                let r = catch_unwind(AssertUnwindSafe(move || {
+                    let _live = txn;
+                    panic!("injected panic with a live write transaction");
+                }));
+                debug_assert!(r.is_err());
+                self.leaky = true;
+                false
+            }
         };
         self.step_extra = format!("spx={}", if spx.is_empty() { "-".to_string() } else { spx.join(",") });
         if committed {
@@ -1012,6 +1041,14 @@ impl World {
         }
         match self.db.as_mut().unwrap().check_integrity() {
             Ok(true) => "ok:1".into(),
+            Ok(false) if self.leaky => {
+                // the leak of a panic-dropped transaction is what was repaired; a second check is clean
+                match self.db.as_mut().unwrap().check_integrity() {
+                    Ok(true) => {}
+                    other => out.oracle_fail(format!("check-integrity-unstable|after repairing the leak of a panic-dropped transaction a second check_integrity() returned {other:?}")),
+                }
+                "ok:0".into()
+            }
             Ok(false) => {
                 out.oracle_fail("check-integrity-dirty|check_integrity() returned Ok(false) on a healthy database".into());
                 "ok:0".into()
@@ -1054,6 +1091,9 @@ pub enum End {
     Commit,
     Abort,
     Drop,
+    /// the transaction is dropped by a panic that unwinds through it and is caught: redb skips the
+    /// abort while unwinding and leaks the transaction's pages until the next open (by design)
+    PanicDrop,
 }
 
 #[derive(Clone, Debug)]
@@ -1107,6 +1147,10 @@ pub(crate) fn gen_ops(rng: &mut Rng, page: usize, n: usize) -> Vec<Op> {
     v
 }
 
+fn mk_empty() -> Step {
+    Step::Txn(TxnSpec { durability: Durability::Immediate, two_phase: false, quick_repair: false, sp_ops: vec![], ops: vec![], end: End::Commit })
+}
+
 pub(crate) fn gen_history(rng: &mut Rng, focus: &str, thorough: bool, page: usize) -> Vec<Step> {
     let n = rng.range(8, if thorough { 60 } else { 30 }) as usize;
     let mut steps = vec![];
@@ -1147,6 +1191,7 @@ pub(crate) fn gen_history(rng: &mut Rng, focus: &str, thorough: bool, page: usiz
             if focus == "c05" && rng.chance(1, 6) {
                 ops.push(Op::PanicInRetain(rng.below(2) as usize));
             }
+            let end = if (focus == "c05" || focus == "c11") && sp_ops.is_empty() && rng.chance(1, 14) { End::PanicDrop } else { end };
             Step::Txn(TxnSpec { durability, two_phase: rng.chance(1, 3), quick_repair: rng.chance(1, 4), sp_ops, ops, end })
         } else if w < 67 {
             Step::BeginRead
@@ -1207,6 +1252,62 @@ pub(crate) fn gen_history(rng: &mut Rng, focus: &str, thorough: bool, page: usiz
             let restore = if rng.chance(1, 2) { SpOp::RestorePersistent(rng.below(3) as usize) } else { SpOp::RestoreEphemeral(rng.below(3) as usize) };
             let end = if rng.chance(1, 4) { End::Abort } else { End::Commit };
             block.push(mk(rng, Durability::Immediate, vec![restore], end));
+            block.push(Step::CheckIntegrity);
+            let at = rng.below(steps.len() as u64 + 1) as usize;
+            let tail = steps.split_off(at);
+            steps.extend(block);
+            steps.extend(tail);
+        }
+    }
+    if focus == "c14" {
+        // grow over several regions, free most of it, shrink (compaction / close), grow again:
+        // the region tracker has to follow the number of regions in both directions
+        let big = |rng: &mut Rng, t: usize| Step::Txn(TxnSpec {
+            durability: Durability::Immediate,
+            two_phase: false,
+            quick_repair: rng.chance(1, 4),
+            sp_ops: vec![],
+            ops: vec![Op::Bulk(t, rng.below(50), rng.range(120, 260), page / 2), Op::Bulk(1 - t, 300 + rng.below(50), rng.range(60, 160), page + 20)],
+            end: End::Commit,
+        });
+        let clear = |rng: &mut Rng| Step::Txn(TxnSpec {
+            durability: Durability::Immediate,
+            two_phase: false,
+            quick_repair: false,
+            sp_ops: vec![],
+            ops: vec![Op::DeleteTable(0), Op::BulkRemove(1, rng.below(300), 400)],
+            end: End::Commit,
+        });
+        for _ in 0..2 {
+            steps.push(big(rng, 0));
+            steps.push(big(rng, 1));
+            steps.push(clear(rng));
+            steps.push(mk_empty());
+            steps.push(mk_empty());
+            steps.push(if rng.chance(1, 2) { Step::Compact } else { Step::Reopen });
+            steps.push(big(rng, 0));
+        }
+    }
+    if focus == "c11" {
+        // a leak left by a caught panic must be reclaimed by the next open whatever happens in
+        // between: other transactions rolled back or committed (also with quick repair, which saves
+        // an allocator snapshot), clean close or crash
+        for _ in 0..rng.range(0, 2) {
+            let mk = |rng: &mut Rng, qr: bool, end: End| {
+                let n = rng.range(1, 6) as usize;
+                Step::Txn(TxnSpec { durability: Durability::Immediate, two_phase: qr, quick_repair: qr, sp_ops: vec![], ops: gen_ops(rng, page, n), end })
+            };
+            let mut block = vec![mk(rng, false, End::PanicDrop)];
+            for _ in 0..rng.range(0, 3) {
+                let end = match rng.below(3) {
+                    0 => End::Abort,
+                    1 => End::Drop,
+                    _ => End::Commit,
+                };
+                let qr = rng.chance(1, 3);
+                block.push(mk(rng, qr, end));
+            }
+            block.push(if rng.chance(1, 3) { Step::CrashReopen } else { Step::Reopen });
             block.push(Step::CheckIntegrity);
             let at = rng.below(steps.len() as u64 + 1) as usize;
             let tail = steps.split_off(at);
@@ -1368,8 +1469,40 @@ impl World {
         }
         self.check_committed_contents(out, &desc);
         self.check_pinned_contents(out, &desc);
-        self.check_state(out, &desc);
+        if self.leaky {
+            if matches!(step, Step::Reopen | Step::CrashReopen) || (matches!(step, Step::CheckIntegrity) && res.starts_with("ok")) {
+                // the allocator state has been rebuilt: exact accounting holds again; the Lean
+                // monitors restart here (the states in between were not shown to them)
+                self.leaky = false;
+                out.line("hist relax");
+                self.check_state(out, &desc);
+            } else {
+                self.check_leak_after_panic(out, &desc);
+            }
+        } else {
+            self.check_state(out, &desc);
+        }
         true
+    }
+
+    /// While the leak of a panic-dropped transaction is outstanding only this is evaluated: C05
+    /// says that no storage space remains consumed by abandoned work
+    fn check_leak_after_panic(&mut self, out: &mut Out, after: &str) {
+        let snap = self.db().verif_snapshot();
+        if snap.tracker.live_write_transaction.is_some() || !snap.mem.allocators_loaded {
+            return;
+        }
+        if let Ok(ps) = self.page_state(&snap) {
+            let mut owned: BTreeSet<u64> = ps.data.iter().chain(ps.sys.iter()).copied().collect();
+            for v in ps.dfreed.values().chain(ps.sfreed.values()) {
+                owned.extend(v.iter().copied());
+            }
+            let leaked = ps.alloc.iter().filter(|p| !owned.contains(p)).count();
+            out.count("states_with_outstanding_panic_leak");
+            if leaked > 0 && self.focus == "c05" && after.contains("end=PanicDrop") {
+                out.oracle_fail(format!("page-leak-after-panic-drop|after {after}: {leaked} pages stay allocated without an owner after a write transaction was dropped by a caught panic (they are reclaimed when the database is next opened)"));
+            }
+        }
     }
 }
 
@@ -1397,7 +1530,7 @@ pub fn run_history(steps: &[Step], cfg: Cfg, focus: &str, out: &mut Out) -> bool
         }
     }
     // quiescence: no readers, no savepoints, two drain commits: every pending-free record is gone
-    if ok && w.db.is_some() {
+    if ok && w.db.is_some() && !w.leaky {
         let r = catch_unwind(AssertUnwindSafe(|| {
             // every sub-step is reported with its own state line, so that the algorithmic model
             // (`Redb.Life2`) can follow the drain commit by commit
@@ -1460,6 +1593,8 @@ pub fn run(args: &Args) {
     let focus = args.extra.iter().position(|a| a == "--focus").and_then(|i| args.extra.get(i + 1)).cloned().unwrap_or_else(|| "c06".to_string());
     let mut rng = Rng::new(args.seed ^ fnv64(&[focus.as_bytes()]));
     out.comment(&format!("history focus={focus} seed={} thorough={}", args.seed, args.thorough));
+    // C14's region-level stream is judged by the allocator / tracker oracles alone
+    out.mute_hist = focus == "c14";
     let n = if args.thorough { 1500 } else { 120 };
     let only: Option<usize> = args.extra.iter().position(|a| a == "--only-case").and_then(|i| args.extra.get(i + 1)).and_then(|x| x.parse().ok());
     for case_index in 0..n {
@@ -1467,8 +1602,9 @@ pub fn run(args: &Args) {
         if only.is_some_and(|o| o != case_index + 1) {
             continue;
         }
-        let page = *r.pick(&[512usize, 512, 1024, 4096]);
-        let region = *r.pick(&[65536u64, 65536, 1 << 20, 0]);
+        // focus c14: many small regions, so that the file grows and shrinks across region boundaries
+        let page = if focus == "c14" { *r.pick(&[512usize, 1024]) } else { *r.pick(&[512usize, 512, 1024, 4096]) };
+        let region = if focus == "c14" { 65536u64 } else { *r.pick(&[65536u64, 65536, 1 << 20, 0]) };
         let region = if region != 0 { region.max(page as u64 * 64) } else { 0 };
         let cfg = Cfg { page, region, cache: *r.pick(&[0usize, 65536, 1 << 30]) };
         let steps = gen_history(&mut r, &focus, args.thorough, page);
